@@ -209,7 +209,7 @@ TAGS = {"0": 0.0, "e": E, "-e": -E, "pi/2": math.pi / 2, "-pi/2": -math.pi / 2, 
         "-pi": -math.pi, "pi/2+e": math.pi / 2 + E, "pi/2-e": math.pi / 2 - E,
         "-pi/2+e": -math.pi / 2 + E, "-pi/2-e": -math.pi / 2 - E, "pi-e": math.pi - E,
         "-pi+e": -math.pi + E, "mid": 0.7, "turns": 17 * 2 * math.pi + 0.3, "big": 1e3 + 0.1}
-LENS = {"1e-3": 1e-3, "1": 1.0, "1e6": 1e6, "1+4e-7": 1.0 + 4e-7, "1-7e-7": 1.0 - 7e-7, "1+3e-9": 1.0 + 3e-9}
+LENS = {"1e-9": 1e-9, "2e-7": 2e-7, "1e-3": 1e-3, "1": 1.0, "1e6": 1e6, "1+4e-7": 1.0 + 4e-7, "1-7e-7": 1.0 - 7e-7, "1+3e-9": 1.0 + 3e-9}
 TMAG = {"0": 0.0, "1e-6": 1e-6, "1": 1.0, "1e6": 1e6}
 
 
